@@ -129,6 +129,10 @@ type event struct {
 	Line   int
 	Data   string
 	Err    string
+
+	// What the callee was handed, kept to re-read it after Parse returned.
+	rec *hostsfile.Record
+	err error
 }
 
 func (e event) String() string {
@@ -142,7 +146,38 @@ func (e event) String() string {
 type recSet struct{ events []event }
 
 func (s *recSet) Add(rec *hostsfile.Record) {
-	s.events = append(s.events, event{Kind: "add", Addr: rec.Addr.String(), Names: append([]string(nil), rec.Names...), Source: rec.Source})
+	s.events = append(s.events, event{Kind: "add", Addr: rec.Addr.String(), Names: append([]string(nil), rec.Names...), Source: rec.Source, rec: rec})
+}
+
+// retainedChanged re-reads every record and error that Parse handed over and
+// reports the first one that no longer says what it said when it was delivered:
+// a Set may keep what it is given (DefaultStorage keeps the names, a
+// collecting HandleSet keeps the errors), so a delivery that Parse overwrites
+// while handling a later line reports that line a second time and loses this
+// one.
+func (s *recSet) retainedChanged() (what string) {
+	for i, e := range s.events {
+		var now event
+		switch {
+		case e.rec != nil:
+			now = event{Kind: "add", Addr: e.rec.Addr.String(), Names: e.rec.Names, Source: e.rec.Source}
+		case e.err != nil:
+			now = event{Kind: "invalid", Source: e.Source, Data: e.Data, Err: e.err.Error(), Line: -1}
+			var le *hostsfile.LineError
+			if errors.As(e.err, &le) {
+				now.Line = le.Line
+				now.Err = causeText(le)
+			}
+		default:
+			continue
+		}
+
+		if now.String() != e.String() {
+			return fmt.Sprintf("delivery %d was %s when handed over and reads %s after Parse returned", i+1, e, now)
+		}
+	}
+
+	return ""
 }
 
 type recHandleSet struct{ recSet }
@@ -150,7 +185,7 @@ type recHandleSet struct{ recSet }
 func (s *recHandleSet) HandleInvalid(srcName string, data []byte, err error) {
 	// The line number and the cause are what the property fixes; how a
 	// LineError words itself is not compared.
-	e := event{Kind: "invalid", Source: srcName, Data: string(data), Err: err.Error(), Line: -1}
+	e := event{Kind: "invalid", Source: srcName, Data: string(data), Err: err.Error(), Line: -1, err: err}
 	var le *hostsfile.LineError
 	if errors.As(err, &le) {
 		e.Line = le.Line
@@ -268,6 +303,12 @@ func runParse(pc parseCase, ch *explore.Chooser) (viol, what, trace string, nonD
 	trace = strings.Join(cr.trace, " ")
 	nonDefault = len(cr.trace) > 2 || cr.injected
 	wantEvs, wantErrs := expected(data, name)
+
+	for _, rs := range []*recSet{&hs.recSet, ps} {
+		if what = rs.retainedChanged(); what != "" {
+			return "retained-delivery", what, trace, nonDefault
+		}
+	}
 
 	if cr.injected {
 		// The stream broke: Parse must report the read error, and what it
